@@ -190,6 +190,10 @@ void mp::internal::TextReader<Locale>::ReadHeader(NLHeader &header) {
     double tmp;
     if (!ReadOptionalDouble(tmp))
       break;
+    // Converting a double outside the range of long is undefined behavior.
+    if (!(tmp > std::numeric_limits<long>::min() &&
+          tmp < std::numeric_limits<long>::max()))
+      break;
     header.ampl_options[i] = (long)tmp;
     if (header.ampl_options[i] != tmp)
       break;
